@@ -213,7 +213,9 @@ class Gen:
         def emit_range(lo,hi):
             # emit subproof rpn[lo:hi+1] (hi is root)
             key=tuple(rpn[lo:hi+1])
-            if key in saved:
+            # layout 'dup': a subproof that is already marked is sometimes written out and marked again (legal: a compressor
+            # need not reuse), so that two marked steps carry the same expression and later references pick the newer mark
+            if key in saved and not (zmode=='dup' and self.rnd.random()<0.35):
                 out.append(refmm.encode_num(len(mand)+len(labels)+saved[key]+1)); return
             # children
             n=arity(rpn[hi]); ends=[]; j=hi-1
@@ -222,7 +224,7 @@ class Gen:
             for e in reversed(ends): emit_range(starts[e],e)
             l=rpn[hi]
             out.append(refmm.encode_num(mand.index(l)+1 if l in mand else len(mand)+labels.index(l)+1))
-            if hi>lo and (zmode=='all' or (zmode=='random' and self.rnd.random()<0.5)) and count[key]>1:
+            if hi>lo and (zmode in ('all','dup') or (zmode=='random' and self.rnd.random()<0.5)) and count[key]>1:
                 out.append('Z'); saved[key]=nsaved[0]; nsaved[0]+=1
         import collections
         count=collections.Counter()
@@ -236,7 +238,7 @@ def make(rnd, zmode='all', extras=False):
     node=g.derive(rnd.randint(2,4),leaves); goal=g.concl(node)
     rpn=[]; g.emit(node,rpn)
     texts={}
-    for zm in ('none','all','random'):
+    for zm in ('none','all','random','dup'):
         proof=g.compress(rpn,tvars(goal),zm)
         texts[zm]=g.header()+'\ngoal $p |- %s $= %s $.\n'%(tstr(goal),proof)
     return g,goal,rpn,texts
